@@ -56,8 +56,54 @@ class Prop:
                 ctx.fail('decode() of str arguments differs from bytes arguments', inp, ref[:160], so[:160],
                          {'kind': 'str-input', 'class': cname})
 
+        # the carriers of two messages interleaved on one channel - the sequence id 0 next to the empty one, a reused
+        # (sequence id, channel) slot with fewer fragments - through the readers and the queue: every delivered
+        # sentence carries the payload bits of its message (and so decodes to the same message)
+        import re
+        ops, meta = [], []
+        names = sorted(gen.concrete_classes())
+        for k in range(60 if ctx.tier == 'quick' else 3000):
+            chan = 'AB'[k % 2]
+            seqs = [('0', ''), ('', '0'), ('3', '3'), ('0', '0'), ('', '')][k % 5]
+            msgs = []
+            for seq, n in zip(seqs, (rng.randint(2, 4), 2)):
+                cname = rng.choice(names)
+                bits = gen.payload_bits(rng, cname)
+                payload, _ = gen.armor(bits)
+                n = min(n, len(payload))
+                if len(payload) > 190 * n or n < 2:
+                    bits = gen.payload_bits(rng, 'MessageType5')
+                    payload, _ = gen.armor(bits)
+                    n = 2
+                cuts = sorted(rng.sample(range(1, len(payload)), n - 1))
+                msgs.append((bits, gen.render(bits, seq=seq, chan=chan, cuts=cuts)))
+            (ba, la), (bb, lb) = msgs
+            if seqs[0] != seqs[1]:
+                lines = gen.random_interleaving(rng, [la, lb])       # two slots: any interleaving
+            else:
+                lines = la + lb                                      # one slot: one after the other
+            done = {}
+            for i, l in enumerate(lines):
+                done['a' if l in la else 'b'] = i
+            order = [ba, bb] if done['a'] < done['b'] else [bb, ba]
+            for fe in ('iter', 'queue', 'bytestream'):
+                ops.append('stream %s 0 %s' % (fe, ' '.join(impl.hx(l) for l in lines)))
+                meta.append((fe, lines, order))
+        outs = ctx.corr(ops, impl.step, 'readers', nontrivial=lambda l, o: '0a21' in o)
+        for (fe, lines, order), o, op in zip(meta, outs, ops):
+            got = re.findall(r' bits=([01-]+) ', o + ' ')
+            if got != order:
+                ctx.fail('a reader delivers sentences that do not carry the payloads of the messages sent',
+                         {'reader_op': op, 'frontend': fe, 'payloads': order}, [b[:24] for b in order], o[:300],
+                         {'kind': 'reader-carrier', 'frontend': fe})
+
     def replay(self, ctx, payload):
         inp = payload['failure']['input']
+        if 'reader_op' in inp:
+            import re
+            o = impl.step(inp['reader_op'])
+            print('observed:', o[:400])
+            return re.findall(r' bits=([01-]+) ', o + ' ') == inp['payloads']
         o = impl.step('decode 0 ' + ' '.join(inp['lines']))
         ref = impl.step('frombits %s' % inp['bits'])
         print('decode :', o[:300])
